@@ -231,6 +231,22 @@ pub fn plain_write(addr: usize, len: usize) {
   }
 }
 
+/// Stands in for `core` inside `Meta::clear` (`use crate::verif::shadow_core as core;`), so that the zeroing
+/// write is reported with the very arguments it is called with.
+pub mod shadow_core {
+  pub mod ptr {
+    /// Reports the write to the installed hook, then performs it.
+    ///
+    /// ## Safety
+    /// Same contract as `core::ptr::write_bytes`.
+    #[inline]
+    pub unsafe fn write_bytes<T>(dst: *mut T, val: u8, count: usize) {
+      crate::verif::plain_write(dst as usize, count.wrapping_mul(::core::mem::size_of::<T>()));
+      unsafe { ::core::ptr::write_bytes(dst, val, count) }
+    }
+  }
+}
+
 #[inline]
 pub fn teardown(addr: usize, len: usize) {
   if let Some(h) = hook() {
